@@ -251,6 +251,10 @@ func runWorkers(bin string, ck *Check, tier, replay, dir string, n int, deadline
 			if os.Getenv("GOGC") == "" {
 				env = append(env, "GOGC=400")
 			}
+			if os.Getenv("GOMEMLIMIT") == "" {
+				// a soft limit: 16 workers with a generous GOGC must not add up to the machine's memory
+				env = append(env, "GOMEMLIMIT=2500MiB")
+			}
 			if ck.GoMaxProcs > 0 {
 				env = append(env, "GOMAXPROCS="+strconv.Itoa(ck.GoMaxProcs))
 			}
